@@ -101,6 +101,8 @@ type step struct {
 	StopOnErr bool `json:"stop_on_err,omitempty"` // when this step fails, skip the remaining steps and return its error
 	Action string `json:"action,omitempty"`
 	Params json.RawMessage `json:"params,omitempty"`
+	Isolation int  `json:"isolation,omitempty"` // begin: sql.IsolationLevel
+	ReadOnly  bool `json:"read_only,omitempty"` // begin
 }
 
 type stepResult struct {
@@ -378,14 +380,18 @@ func runStep(ctx context.Context, s *step, st *runState) (r stepResult) {
 	case "begin":
 		var tx *sql.Tx
 		var err error
+		var opts *sql.TxOptions
+		if s.Isolation != 0 || s.ReadOnly {
+			opts = &sql.TxOptions{Isolation: sql.IsolationLevel(s.Isolation), ReadOnly: s.ReadOnly}
+		}
 		if st.conn != nil {
-			tx, err = st.conn.BeginTx(ctx, nil)
+			tx, err = st.conn.BeginTx(ctx, opts)
 		} else {
 			db := getDB(s.DB)
 			if db == nil {
 				return fail(fmt.Errorf("unknown db %q", s.DB))
 			}
-			tx, err = db.BeginTx(ctx, nil)
+			tx, err = db.BeginTx(ctx, opts)
 		}
 		if err != nil {
 			return fail(err)
